@@ -54,6 +54,7 @@ inductive Op where
   | equal | equalVerify | hash160
   | checkSig | checkSigVerify | checkMultiSig
   | csv | cltv
+  | verify
 deriving DecidableEq, Repr, Inhabited
 
 /-- The fields of the spending transaction the scripts can observe. -/
@@ -249,6 +250,11 @@ def opCltv (c : Ctx) (st : Stack) : Option Stack :=
   | .num n :: st => if cltvOk c n then some (.num n :: st) else none
   | _ => none
 
+def opVerify (st : Stack) : Option Stack :=
+  match st with
+  | x :: st => if truthy x then some st else none
+  | [] => none
+
 /-- an executed opcode -/
 def exec (c : Ctx) (op : Op) (st : Stack) (cond : List Bool) : Option State :=
   let keep (r : Option Stack) : Option State := r.map fun st' => { stack := st', cond := cond }
@@ -271,6 +277,7 @@ def exec (c : Ctx) (op : Op) (st : Stack) (cond : List Bool) : Option State :=
   | .checkMultiSig => keep (opCheckMultiSig c st)
   | .csv => keep (opCsv c st)
   | .cltv => keep (opCltv c st)
+  | .verify => keep (opVerify st)
 
 /-- an opcode inside a branch that is not taken -/
 def skip (op : Op) (st : Stack) (cond : List Bool) : Option State :=
@@ -364,9 +371,33 @@ def p2wkh (k : Key) : List Op :=
 
 /-! ### taproot (symbolic) -/
 
-/-- tapscript leaves used by the simple-taproot channel scripts -/
-def tapToLocalDelay (delay : Key) (csvDelay : Nat) : List Op :=
-  [pk delay, .checkSig, n csvDelay, .csv, .drop]
+/-- delay leaf of to_local and of the second-level output, and (csvDelay = 1) the
+    to_remote leaf; `final` selects the production variant of the scripts. -/
+def tapDelayLeaf (final : Bool) (k : Key) (csvDelay : Nat) : List Op :=
+  if final then [pk k, .checkSigVerify, n csvDelay, .csv]
+  else [pk k, .checkSig, n csvDelay, .csv, .drop]
+
+/-- revocation leaf of to_local (`TaprootLocalCommitRevokeScript`). -/
+def tapRevokeLeaf (delay rev : Key) : List Op := [pk delay, .drop, pk rev, .checkSig]
+
+/-- offered HTLC on the sender's commitment, timeout leaf (`SenderHTLCTapLeafTimeout`). -/
+def tapSenderTimeoutLeaf (sender receiver : Key) : List Op :=
+  [pk sender, .checkSigVerify, pk receiver, .checkSig]
+
+/-- offered HTLC, success leaf (`SenderHTLCTapLeafSuccess`). -/
+def tapSenderSuccessLeaf (final : Bool) (receiver : Key) (payHash : Item) : List Op :=
+  [.size, n 32, .equalVerify, .hash160, .push payHash, .equalVerify, pk receiver]
+  ++ (if final then [.checkSigVerify, n 1, .csv] else [.checkSig, n 1, .csv, .drop])
+
+/-- received HTLC on the receiver's commitment, success leaf (`ReceiverHtlcTapLeafSuccess`). -/
+def tapReceiverSuccessLeaf (sender receiver : Key) (payHash : Item) : List Op :=
+  [.size, n 32, .equalVerify, .hash160, .push payHash, .equalVerify, pk receiver, .checkSigVerify,
+   pk sender, .checkSig]
+
+/-- received HTLC, timeout leaf (`ReceiverHtlcTapLeafTimeout`). -/
+def tapReceiverTimeoutLeaf (final : Bool) (sender : Key) (cltvExpiry : Nat) : List Op :=
+  if final then [pk sender, .checkSigVerify, n 1, .csv, .verify, n cltvExpiry, .cltv]
+  else [pk sender, .checkSig, n 1, .csv, .drop, n cltvExpiry, .cltv, .drop]
 
 /-! ### witness stacks (input/script_utils.go witness generators) -/
 
